@@ -9,45 +9,7 @@
                  0.69314718 < ln 2 < 0.69314719:  | hashes*n - ln2*bits | <= n/2 (+ enclosure slack);
                  bits and hashes themselves are compared with an independent high-precision evaluation by the harness.
    Input: cases.json, a list of [id, kind, num, e, a, b, c] with num, a, b, c limb sequences.  One verdict per case. *)
-EXTENDS Integers, Sequences, TLC, Json
-
-B == 32768
-
-RECURSIVE Strip(_)
-Strip(a) == IF a = <<>> THEN <<>> ELSE IF a[Len(a)] = 0 THEN Strip(SubSeq(a, 1, Len(a) - 1)) ELSE a
-
-RECURSIVE CmpFrom(_, _, _)
-CmpFrom(a, b, i) == IF i = 0 THEN 0 ELSE IF a[i] < b[i] THEN -1 ELSE IF a[i] > b[i] THEN 1 ELSE CmpFrom(a, b, i - 1)
-Cmp(x, y) == LET a == Strip(x)  b == Strip(y) IN
-             IF Len(a) < Len(b) THEN -1 ELSE IF Len(a) > Len(b) THEN 1 ELSE CmpFrom(a, b, Len(a))
-Leq(x, y) == Cmp(x, y) <= 0
-
-Limb(a, i) == IF i <= Len(a) THEN a[i] ELSE 0
-RECURSIVE AddC(_, _, _, _, _)
-AddC(a, b, i, c, acc) == IF i > Len(a) /\ i > Len(b) THEN (IF c = 0 THEN acc ELSE Append(acc, c))
-                         ELSE LET s == Limb(a, i) + Limb(b, i) + c IN AddC(a, b, i + 1, s \div B, Append(acc, s % B))
-Add(a, b) == AddC(a, b, 1, 0, <<>>)
-
-RECURSIVE SubC(_, _, _, _, _)
-SubC(a, b, i, br, acc) == IF i > Len(a) THEN acc           \* requires a >= b
-                          ELSE LET s == a[i] - Limb(b, i) - br IN
-                               IF s < 0 THEN SubC(a, b, i + 1, 1, Append(acc, s + B)) ELSE SubC(a, b, i + 1, 0, Append(acc, s))
-Sub(a, b) == SubC(a, b, 1, 0, <<>>)
-
-RECURSIVE MulSC(_, _, _, _, _)
-MulSC(a, s, i, c, acc) == IF i > Len(a) THEN (IF c = 0 THEN acc ELSE Append(acc, c))
-                          ELSE LET p == a[i] * s + c IN MulSC(a, s, i + 1, p \div B, Append(acc, p % B))
-MulSmall(a, s) == MulSC(a, s, 1, 0, <<>>)                  \* 0 <= s < 2^15
-
-ShiftLimbs(a, n) == [i \in 1..(Len(a) + n) |-> IF i <= n THEN 0 ELSE a[i - n]]
-RECURSIVE MulFrom(_, _, _)
-MulFrom(a, b, i) == IF i > Len(b) THEN <<>> ELSE Add(ShiftLimbs(MulSmall(a, b[i]), i - 1), MulFrom(a, b, i + 1))
-Mul(a, b) == MulFrom(a, b, 1)
-
-RECURSIVE P2(_)
-P2(k) == IF k = 0 THEN 1 ELSE 2 * P2(k - 1)
-Pow2L(x) == ShiftLimbs(<<P2(x % 15)>>, x \div 15)           \* 2^x
-Small(n) == IF n < B THEN <<n>> ELSE <<n % B, (n \div B) % B, n \div (B * B)>>   \* n < 2^31
+EXTENDS Limbs, TLC, Json
 
 -----------------------------------------------------------------------------
 WidthOK(num, e, width) == Leq(Pow2L(e + 1), Mul(num, width))
